@@ -56,7 +56,7 @@ class C08CountingBloom(Scenario):
         ctx.count("op." + op)
         sig = {"class": "CountingBloomFilter", "op": op}
         if op == "add":
-            o.add(seams.key_of(step["k"]), step["n"])
+            structs.api_add(o, seams.key_of(step["k"]), step.get("alt"), n=step["n"])
             self.out[step["k"]] = self.out.get(step["k"], 0) + step["n"]
             if self.coincide(step["k"]):
                 ctx.fault("hash_collide")
@@ -64,18 +64,18 @@ class C08CountingBloom(Scenario):
         elif op == "remove":
             if self.out.get(step["k"], 0) < step["n"]:
                 return "skip"
-            o.remove(seams.key_of(step["k"]), step["n"])
+            structs.api_remove(o, seams.key_of(step["k"]), step["n"], step.get("alt"))
             self.out[step["k"]] -= step["n"]
         elif op == "bracket":
             s0 = bytes(o)
             for k, n in step["adds"]:
-                o.add(seams.key_of(k), n)
+                structs.api_add(o, seams.key_of(k), step.get("alt"), n=n)
                 if self.coincide(k):
                     ctx.fault("hash_collide")
                     ctx.nontrivial = True
             mid = bytes(o)
             for k, n in reversed(step["adds"]):
-                o.remove(seams.key_of(k), n)
+                structs.api_remove(o, seams.key_of(k), n, step.get("alt"))
             s1 = bytes(o)
             if s1 != s0:
                 d = [i for i in range(len(s0)) if s0[i] != s1[i]][:6]
@@ -96,7 +96,7 @@ class C08CountingBloom(Scenario):
         else:
             raise HarnessError(op)
         for k in range(self.cfg["universe"]):
-            c = o.check(seams.key_of(k))
+            c = structs.api_check(o, seams.key_of(k), alt=bool(k % 2))
             if c < self.out.get(k, 0):
                 raise Violation("undercount", f"key {k}: {self.out.get(k, 0)} outstanding additions, check says {c} after "
                                               f"{step}", sig)
